@@ -17,10 +17,13 @@ Set Warnings "-unused-intro-pattern".
 Definition fstable (b : nat) (F : heap_t -> Prop) : Prop :=
   astable F /\
   (forall h c o0 o, b <= c -> nth_error h c = Some o0 -> shape o = shape o0 -> shape o0 < 3 ->
-     (forall c', orefs c' o <= orefs c' o0) -> F h -> F (set_nth c o h)).
+     (forall c', orefs c' o = orefs c' o0) -> F h -> F (set_nth c o h)).
 
 Lemma cstable_fstable b F : cstable F -> fstable b F.
-Proof. intros [A B]. split; auto. intros; eapply B; eauto. Qed.
+Proof.
+  intros [A B]. split; auto. intros h c o0 o Hb N S Sc Eq Fh. eapply B; eauto.
+  intro c'. rewrite Eq. lia.
+Qed.
 
 Lemma fstable_and b F G : fstable b F -> fstable b G -> fstable b (fun h => F h /\ G h).
 Proof.
@@ -162,14 +165,14 @@ Section DcContainer.
   Lemma CP_write F b lx o h l' o0 o1 :
     fstable b F -> CP F b lx o h -> b <= l' -> l' <> lx ->
     nth_error h l' = Some o0 -> shape o1 = shape o0 -> shape o0 < 3 ->
-    (forall c', orefs c' o1 <= orefs c' o0) -> refcount h l' = 0 ->
+    (forall c', orefs c' o1 = orefs c' o0) -> refcount h l' = 0 ->
     CP F b lx o (set_nth l' o1 h) /\ loose (set_nth l' o1 h) (VRef l') /\
     nth_error (set_nth l' o1 h) l' = Some o1.
   Proof.
     intros [_ SW] ((I & Fh) & Hb & N) Hl Ne N' S Sc Le Z.
     assert (L : l' < length h) by (apply nth_error_Some; congruence).
     split; [split; [split|split]|split].
-    - eapply Inv_write_loose; eauto.
+    - eapply Inv_write_loose; eauto. intro c'. rewrite Le. lia.
     - eapply SW; eauto.
     - now rewrite set_nth_length.
     - rewrite set_nth_other; auto.
@@ -220,7 +223,7 @@ Section DcContainer.
         destruct L0 as [L0 Z0].
         destruct (CP_write F b lx (OList xs) (heap s0) l' (OList done) (OList (done ++ [x])) SF C0 Hl' Ne N0)
           as (C2 & L2 & N2); auto; try (simpl; lia);
-          try (intro c'; rewrite orefs_snoc_list; [lia|apply (norefs_list xs Nr x Hx)]).
+          try (intro c'; rewrite orefs_snoc_list; [reflexivity|apply (norefs_list xs Nr x Hx)]).
         all: try (split; [exact C2|split; [reflexivity|split; [exact L2|exact N2]]]). }
       assert (HT : T (J [] ((lx, l') :: memo))
                      (memo' <- foldM (fun m x =>
@@ -266,7 +269,7 @@ Section DcContainer.
         destruct L0 as [L0 Z0].
         destruct (CP_write F b lx (ODict kvs) (heap s0) l' (ODict done) (ODict (done ++ [(fst p, snd p)])) SF C0 Hl' Ne N0)
           as (C2 & L2 & N2); auto; try (simpl; lia);
-          try (intro c'; rewrite orefs_snoc_dict; [lia|exact Hk|exact Hv]).
+          try (intro c'; rewrite orefs_snoc_dict; [reflexivity|exact Hk|exact Hv]).
         all: try (destruct p; cbn [fst snd] in *; split; [exact C2|split; [reflexivity|split; [exact L2|exact N2]]]). }
       assert (HT : T (J [] ((lx, l') :: memo))
                      (memo' <- foldM (fun m p =>
@@ -297,3 +300,57 @@ Section DcContainer.
       split; auto. exists (length (heap s)). split; auto. split; [apply Hcp|auto].
   Qed.
 End DcContainer.
+
+(* ------------------------------------------------------------------ *)
+(** * Deepcopy of a flat instance *)
+Lemma T_foldM_split {A B} (f : B -> A -> M B) (I : list A -> B -> heap_t -> Prop) (E : heap_t -> Prop) l :
+  (forall done x rest acc, l = done ++ x :: rest ->
+     T (I done acc) (f acc x) (fun acc' h => I (done ++ [x]) acc' h) E) ->
+  forall acc, T (I [] acc) (foldM f l acc) (fun acc' h => I l acc' h) E.
+Proof.
+  intro H.
+  assert (G : forall l' done acc, l = done ++ l' ->
+              T (I done acc) (foldM f l' acc) (fun acc' h => I l acc' h) E).
+  { induction l' as [|x t IH]; intros done acc El; simpl.
+    - apply T_ret. intros h Hh. rewrite app_nil_r in El. now subst.
+    - eapply T_bind; [eapply H; eauto|]. intros acc'. apply IH. rewrite <- app_assoc. exact El. }
+  intro acc. apply G. reflexivity.
+Qed.
+
+Lemma forallb_ext_in {A} (f g : A -> bool) l : (forall x, In x l -> f x = g x) -> forallb f l = forallb g l.
+Proof. induction l; simpl; auto. intro H. rewrite H, IHl; auto. Qed.
+
+(* a fact about the cells below b *)
+Definition old_fact (b : nat) (F : heap_t -> Prop) : Prop :=
+  forall h h', (forall c, c < b -> nth_error h' c = nth_error h c) -> F h -> F h'.
+
+Lemma check_nonref_heap ct f : forall t v h h', nonref v ->
+  check_type f ct h v t = check_type f ct h' v t.
+Proof.
+  induction f as [|f IH]; intros t v h h' Hv; simpl; auto.
+  destruct t; auto.
+  - destruct v; auto; apply IH; auto.
+  - f_equal; auto.
+  - destruct v; auto. exfalso. eapply Hv; reflexivity.
+  - destruct v; auto. exfalso. eapply Hv; reflexivity.
+  - destruct v; auto. exfalso. eapply Hv; reflexivity.
+  - destruct v; auto. exfalso. eapply Hv; reflexivity.
+Qed.
+
+(* a cell with the same reference-free content conforms to the same annotations *)
+Lemma check_same_content ct f : forall t h h' lx l' o,
+  nth_error h lx = Some o -> nth_error h' l' = Some o -> norefs o -> shape o < 3 ->
+  check_type f ct h (VRef lx) t = check_type f ct h' (VRef l') t.
+Proof.
+  induction f as [|f IH]; intros t h h' lx l' o N N' Nr So; simpl; auto.
+  destruct t; auto.
+  - eapply IH; eauto.
+  - f_equal; eapply IH; eauto.
+  - rewrite N, N'. destruct o; auto. apply forallb_ext_in. intros x Hx.
+    apply check_nonref_heap. eapply norefs_list; eauto.
+  - rewrite N, N'. destruct o; auto. apply forallb_ext_in. intros p Hp.
+    destruct (norefs_dict _ Nr p Hp). f_equal; apply check_nonref_heap; auto.
+  - rewrite N, N'. destruct o; auto. apply forallb_ext_in. intros x Hx.
+    apply check_nonref_heap. eapply norefs_set; eauto.
+  - rewrite N, N'. destruct o; auto.
+Qed.
